@@ -1,13 +1,644 @@
-// Package c17 is the harness for property C17 (runs the real kapacitor code, prints op lines).
+// Package c17 is the harness for property C17: it drives the REAL scheduler.TreeScheduler
+// (task/backend/scheduler/treescheduler.go) in-process with
+//   - the benbjohnson mock clock (moved only while the scheduler mutex is held, the recipe of
+//     scheduler_test.go, so that the mock's timer stepping cannot race with the main loop),
+//   - a recording Executor whose every Execute call blocks on a gate until a `done` op releases it
+//     with a chosen outcome (ok / error / panic),
+//   - a recording SchedulableService (checkpointer) with controllable failure,
+//
+// and prints, per op, what the implementation did: the new executor / checkpoint / error events and a
+// lock-consistent snapshot of the scheduler's bookkeeping (queue, uniqueness index, s.when, pending tick)
+// taken through the add-only hook verif_hooks_c17.go after the system has become quiescent.
+//
+// Op lines (input part):
+//
+//	cfg <workers>
+//	sched <id> <sc> <off> <last> cron=<esc> [wk=<w> tbl=<o1,o2,..,!|~>]   (wk/tbl are oracles, always recomputed)
+//	rel <id>
+//	adv <d>
+//	done <id> <ok|err|panic> <cpok|cperr>
+//
+// Observation: `<status> q=<when:id:next:off,..> ix=<id:when,..> w=<when|z> tick=<0|1> ev=<events>`.
 package c17
 
 import (
+	"context"
+	"encoding/binary"
+	"errors"
 	"fmt"
 	"os"
+	"runtime"
+	"sort"
+	"strconv"
+	"strings"
+	"sync"
+	"sync/atomic"
+	"time"
+
+	"github.com/benbjohnson/clock"
+	"github.com/cespare/xxhash"
+	"github.com/influxdata/kapacitor/task/backend/scheduler"
+
+	"verifharness/kit"
 )
 
-// Run is replaced by the property's harness.
+const (
+	tblMax        = 48              // occurrences listed per schedule table
+	settleTimeout = 4 * time.Second // quiescence watchdog
+	callTimeout   = 3 * time.Second // Schedule / Release must return within this ("promptly")
+)
+
+// ---- clock wrapper: counts the scheduler's reads of its clock (used only to detect a spinning main loop) ----
+
+type hclock struct {
+	*clock.Mock
+	reads int64
+}
+
+func (c *hclock) Now() time.Time { atomic.AddInt64(&c.reads, 1); return c.Mock.Now() }
+
+// ---- schedulable ----
+
+type schedulable struct {
+	id   scheduler.ID
+	s    scheduler.Schedule
+	off  time.Duration
+	last time.Time
+}
+
+func (s schedulable) ID() scheduler.ID             { return s.id }
+func (s schedulable) Schedule() scheduler.Schedule { return s.s }
+func (s schedulable) Offset() time.Duration        { return s.off }
+func (s schedulable) LastScheduled() time.Time     { return s.last }
+
+// ---- recorder: executor + checkpointer + error func ----
+
+type execRec struct {
+	id   scheduler.ID
+	next int64
+	gate chan string
+}
+
+type rec struct {
+	mu       sync.Mutex
+	mc       *hclock
+	events   []string // events since the last op, arrival order
+	inflight map[scheduler.ID]*execRec
+	cpFail   map[scheduler.ID]bool
+	starts   map[scheduler.ID]int // exec starts per id since the case began
+	ckpts    int
+	draining bool
+}
+
+func (r *rec) Execute(ctx context.Context, id scheduler.ID, scheduledFor time.Time, runAt time.Time) error {
+	r.mu.Lock()
+	now := r.mc.Mock.Now().Unix()
+	if _, dup := r.inflight[id]; dup {
+		r.events = append(r.events, fmt.Sprintf("o:%d:%d", id, scheduledFor.Unix())) // overlapping execution
+	}
+	r.events = append(r.events, fmt.Sprintf("s:%d:%d:%d:%d", id, scheduledFor.Unix(), runAt.Unix(), now))
+	r.starts[id]++
+	if r.draining {
+		r.mu.Unlock()
+		return nil
+	}
+	er := &execRec{id: id, next: scheduledFor.Unix(), gate: make(chan string, 1)}
+	r.inflight[id] = er
+	r.mu.Unlock()
+	res := <-er.gate
+	r.mu.Lock()
+	if r.inflight[id] == er {
+		delete(r.inflight, id)
+	}
+	r.events = append(r.events, fmt.Sprintf("f:%d:%d", id, er.next))
+	r.mu.Unlock()
+	switch res {
+	case "err":
+		return errors.New("run failed")
+	case "panic":
+		panic("executor panic")
+	}
+	return nil
+}
+
+func (r *rec) UpdateLastScheduled(ctx context.Context, id scheduler.ID, t time.Time) error {
+	r.mu.Lock()
+	defer r.mu.Unlock()
+	r.events = append(r.events, fmt.Sprintf("c:%d:%d", id, t.Unix()))
+	r.ckpts++
+	if r.cpFail[id] {
+		r.cpFail[id] = false
+		return errors.New("checkpoint failed")
+	}
+	return nil
+}
+
+func (r *rec) onErr(ctx context.Context, id scheduler.ID, scheduledFor time.Time, err error) {
+	r.mu.Lock()
+	defer r.mu.Unlock()
+	r.events = append(r.events, fmt.Sprintf("e:%d", id))
+}
+
+// ---- one case ----
+
+type hcase struct {
+	s        *scheduler.TreeScheduler
+	mc       *hclock
+	r        *rec
+	workers  int
+	dead     bool         // the scheduler stopped answering; every further op is reported `dead`
+	gids     map[int]bool // goroutines of this scheduler instance
+	lastTick bool         // the last settled snapshot had a tick stuck behind a spinning loop
+	nsched   int
+}
+
+func workerOf(id scheduler.ID, workers int) int {
+	buf := [8]byte{}
+	binary.LittleEndian.PutUint64(buf[:], uint64(id))
+	return int(xxhash.Sum64(buf[:]) % uint64(workers))
+}
+
+func newCase(workers int) (*hcase, error) {
+	mc := &hclock{Mock: clock.NewMock()}
+	r := &rec{mc: mc, inflight: map[scheduler.ID]*execRec{}, cpFail: map[scheduler.ID]bool{}, starts: map[scheduler.ID]int{}}
+	before := goroutineBlocks()
+	s, _, err := scheduler.NewScheduler(r, r, scheduler.WithTime(mc), scheduler.WithMaxConcurrentWorkers(workers), scheduler.WithOnErrorFn(r.onErr))
+	if err != nil {
+		return nil, err
+	}
+	gids := map[int]bool{}
+	for id, b := range goroutineBlocks() {
+		if _, old := before[id]; !old && strings.Contains(b, "task/backend/scheduler.") {
+			gids[id] = true
+		}
+	}
+	return &hcase{s: s, mc: mc, r: r, workers: workers, gids: gids}, nil
+}
+
+// table lists the occurrences of a schedule after `last` (the oracle the model is parameterised by).
+func table(sc scheduler.Schedule, last int64) (occ []int64, ended bool) {
+	t := time.Unix(last, 0).UTC()
+	for len(occ) < tblMax {
+		n, err := sc.Next(t)
+		if err != nil {
+			return occ, true
+		}
+		occ = append(occ, n.UTC().Unix())
+		t = time.Unix(n.UTC().Unix(), 0).UTC()
+	}
+	return occ, false
+}
+
+func renderTable(occ []int64, ended bool) string {
+	var p []string
+	for _, o := range occ {
+		p = append(p, strconv.FormatInt(o, 10))
+	}
+	if ended {
+		p = append(p, "!")
+	} else {
+		p = append(p, "~")
+	}
+	return strings.Join(p, ",")
+}
+
+func list(xs []string) string {
+	if len(xs) == 0 {
+		return "-"
+	}
+	return strings.Join(xs, ",")
+}
+
+// ---- goroutine states (runtime.Stack): is the main loop parked at its select, are the workers parked? ----
+
+type gstate struct {
+	loopFound, loopParked  bool
+	workers, workersParked int
+}
+
+func goroutineBlocks() map[int]string {
+	buf := make([]byte, 1<<19)
+	n := runtime.Stack(buf, true)
+	out := map[int]string{}
+	for _, b := range strings.Split(string(buf[:n]), "\n\n") {
+		if !strings.HasPrefix(b, "goroutine ") {
+			continue
+		}
+		sp := strings.IndexByte(b[10:], ' ')
+		if sp < 0 {
+			continue
+		}
+		id, err := strconv.Atoi(b[10 : 10+sp])
+		if err != nil {
+			continue
+		}
+		out[id] = b
+	}
+	return out
+}
+
+func headerState(block string) string {
+	i := strings.IndexByte(block, '[')
+	j := strings.IndexAny(block, ",]")
+	if i < 0 || j < i {
+		return ""
+	}
+	return block[i+1 : j]
+}
+
+// gstates looks at the goroutines of THIS scheduler instance (recorded at creation).
+func (h *hcase) gstates() (g gstate) {
+	for id, b := range goroutineBlocks() {
+		if !h.gids[id] {
+			continue
+		}
+		st := headerState(b)
+		switch {
+		case strings.Contains(b, "scheduler.NewScheduler.func"):
+			g.loopFound = true
+			// the only blocking select of the loop is the outer one (the iterator's select has a default)
+			g.loopParked = st == "select"
+		case strings.Contains(b, ".(*TreeScheduler).work"):
+			g.workers++
+			if st == "chan receive" {
+				g.workersParked++ // idle (receiving from its work channel) or inside a gated Execute
+			}
+		}
+	}
+	return g
+}
+
+func sameSnap(a, b scheduler.VerifSnapshot) bool {
+	if len(a.Queue) != len(b.Queue) || len(a.Index) != len(b.Index) || !a.When.Equal(b.When) || a.TickPending != b.TickPending {
+		return false
+	}
+	for i := range a.Queue {
+		if a.Queue[i] != b.Queue[i] {
+			return false
+		}
+	}
+	for k, v := range a.Index {
+		if w, ok := b.Index[k]; !ok || w != v {
+			return false
+		}
+	}
+	return true
+}
+
+// settle drives the system to quiescence and returns the snapshot, or ok=false on timeout.
+// Each round "kicks" the mock clock (Add(0) under the scheduler mutex) unless a tick is already pending:
+// a mock timer armed at or before `now` only fires when the clock is moved, a real timer fires by itself.
+// Quiescent means: every worker goroutine is parked (idle in its channel receive or inside a gated Execute),
+// and the main loop is EITHER parked at its select with no tick pending, OR spinning in its inner loop without
+// effect (two identical lock-consistent snapshots with at least two complete passes in between, counted by the
+// loop's reads of the clock).
+func (h *hcase) settle(wantCkpts int) (snap scheduler.VerifSnapshot, ok bool) {
+	deadline := time.Now().Add(settleTimeout)
+	for {
+		if time.Now().After(deadline) {
+			return h.s.VerifState(), false
+		}
+		pre := h.s.VerifState()
+		if !pre.TickPending {
+			done := make(chan struct{})
+			go func() {
+				h.s.VerifWithLock(func() { h.mc.Mock.Add(0) })
+				close(done)
+			}()
+			select {
+			case <-done:
+			case <-time.After(callTimeout):
+				h.dead = true
+				return pre, false
+			}
+		}
+		h.r.mu.Lock()
+		ck := h.r.ckpts
+		h.r.mu.Unlock()
+		if ck < wantCkpts {
+			time.Sleep(50 * time.Microsecond)
+			continue
+		}
+		g1 := h.gstates()
+		r0 := atomic.LoadInt64(&h.mc.reads)
+		a := h.s.VerifState()
+		if g1.workersParked != g1.workers || !g1.loopFound {
+			time.Sleep(50 * time.Microsecond)
+			continue
+		}
+		if g1.loopParked {
+			g2 := h.gstates()
+			b := h.s.VerifState()
+			if g2.loopParked && g2.workersParked == g2.workers && !a.TickPending && !b.TickPending && sameSnap(a, b) &&
+				atomic.LoadInt64(&h.mc.reads) == r0 && !pre.TickPending {
+				return b, true
+			}
+			time.Sleep(50 * time.Microsecond)
+			continue
+		}
+		// the loop is running: wait for two complete passes (each complete pass reads the clock three times)
+		waitUntil := time.Now().Add(20 * time.Millisecond)
+		for atomic.LoadInt64(&h.mc.reads) < r0+8 && time.Now().Before(waitUntil) {
+			time.Sleep(20 * time.Microsecond)
+		}
+		if atomic.LoadInt64(&h.mc.reads) < r0+8 {
+			continue
+		}
+		g2 := h.gstates()
+		b := h.s.VerifState()
+		if !g2.loopParked && g2.workersParked == g2.workers && sameSnap(a, b) && (pre.TickPending == b.TickPending) {
+			// spinning without effect; a pending tick stays pending
+			if !b.TickPending {
+				// the kick of this round did not fire anything (or its tick was consumed): fixpoint
+				return b, true
+			}
+			return b, true
+		}
+	}
+}
+
+func (h *hcase) takeEvents() []string {
+	h.r.mu.Lock()
+	ev := h.r.events
+	h.r.events = nil
+	h.r.mu.Unlock()
+	// canonical order: stable by task id (per id the order is the real order; across ids it is scheduling noise)
+	idOf := func(e string) int64 {
+		p := strings.Split(e, ":")
+		v, _ := strconv.ParseInt(p[1], 10, 64)
+		return v
+	}
+	sort.SliceStable(ev, func(i, j int) bool { return idOf(ev[i]) < idOf(ev[j]) })
+	return ev
+}
+
+func (h *hcase) observe(status string, wantCkpts int) string {
+	snap, ok := h.settle(wantCkpts)
+	if !ok {
+		status = "unsettled"
+	}
+	var q, ix []string
+	for _, it := range snap.Queue {
+		q = append(q, fmt.Sprintf("%d:%d:%d:%d", it.When, it.ID, it.Next, it.Offset))
+	}
+	var ids []int
+	for id := range snap.Index {
+		ids = append(ids, int(id))
+	}
+	sort.Ints(ids)
+	for _, id := range ids {
+		ix = append(ix, fmt.Sprintf("%d:%d", id, snap.Index[scheduler.ID(id)]))
+	}
+	w := "z"
+	if !snap.When.IsZero() {
+		w = strconv.FormatInt(snap.When.Unix(), 10)
+	}
+	tick := "0"
+	h.lastTick = snap.TickPending
+	if snap.TickPending {
+		tick = "1"
+	}
+	return fmt.Sprintf("%s q=%s ix=%s w=%s tick=%s ev=%s", status, list(q), list(ix), w, tick, list(h.takeEvents()))
+}
+
+// call runs f with a watchdog: the property demands that Schedule / Release return promptly.
+func call(f func() error) (err error, returned bool) {
+	ch := make(chan error, 1)
+	go func() { ch <- f() }()
+	select {
+	case e := <-ch:
+		return e, true
+	case <-time.After(callTimeout):
+		return nil, false
+	}
+}
+
+// doOp executes one op line and returns the line (oracle tokens refreshed) with its observation.
+func (h *hcase) doOp(t []string) (string, bool) {
+	if h.dead {
+		return strings.Join(t, " ") + " => dead", true
+	}
+	atoi := func(s string) int64 { v, _ := strconv.ParseInt(s, 10, 64); return v }
+	switch t[0] {
+	case "sched":
+		if len(t) < 6 {
+			return "", false
+		}
+		id := scheduler.ID(atoi(t[1]))
+		off, last := atoi(t[3]), atoi(t[4])
+		cronTok := ""
+		for _, x := range t[5:] {
+			if strings.HasPrefix(x, "cron=") {
+				cronTok = x[5:]
+			}
+		}
+		cronStr, _ := kit.Unesc(cronTok)
+		// scheduler.NewSchedule also returns an aligned last-scheduled time; the harness passes `last` as given
+		// (the property is stated relative to the LastScheduled the Schedulable reports).
+		sc, _, err := scheduler.NewSchedule(cronStr, time.Unix(last, 0).UTC())
+		if err != nil {
+			return strings.Join(t[:5], " ") + " cron=" + cronTok + " => badcron", true
+		}
+		occ, ended := table(sc, last)
+		line := fmt.Sprintf("sched %d %s %d %d cron=%s wk=%d tbl=%s", id, t[2], off, last, cronTok, workerOf(id, h.workers), renderTable(occ, ended))
+		var serr error
+		e, returned := call(func() error {
+			return h.s.Schedule(schedulable{id: id, s: sc, off: time.Duration(off) * time.Second, last: time.Unix(last, 0).UTC()})
+		})
+		if !returned {
+			h.dead = true
+			return line + " => blocked", true
+		}
+		serr = e
+		status := "ok"
+		if serr != nil {
+			status = "err"
+		}
+		return line + " => " + h.observe(status, 0), true
+	case "rel":
+		id := scheduler.ID(atoi(t[1]))
+		line := fmt.Sprintf("rel %d", id)
+		e, returned := call(func() error { return h.s.Release(id) })
+		if !returned {
+			h.dead = true
+			return line + " => blocked", true
+		}
+		status := "ok"
+		if e != nil {
+			status = "err"
+		}
+		return line + " => " + h.observe(status, 0), true
+	case "adv":
+		d := atoi(t[1])
+		line := fmt.Sprintf("adv %d", d)
+		if d < 0 {
+			return line + " => refused", true
+		}
+		// A mock timer whose channel still holds an unconsumed tick would block inside clock.Mock.Add while
+		// holding the mock's mutex (a deadlock of the MOCK, not of the scheduler): refuse to move the clock then.
+		if h.lastTick {
+			return line + " => " + h.observe("refused", 0), true
+		}
+		done := make(chan struct{})
+		go func() {
+			h.s.VerifWithLock(func() { h.mc.Mock.Add(time.Duration(d) * time.Second) })
+			close(done)
+		}()
+		select {
+		case <-done:
+		case <-time.After(callTimeout):
+			h.dead = true
+			return line + " => blocked", true
+		}
+		return line + " => " + h.observe("ok", 0), true
+	case "done":
+		id := scheduler.ID(atoi(t[1]))
+		line := fmt.Sprintf("done %d %s %s", id, t[2], t[3])
+		h.r.mu.Lock()
+		er := h.r.inflight[id]
+		want := h.r.ckpts
+		if er != nil {
+			if t[3] == "cperr" {
+				h.r.cpFail[id] = true
+			}
+			want++
+		}
+		h.r.mu.Unlock()
+		if er == nil {
+			return line + " => " + h.observe("noinflight", 0), true
+		}
+		er.gate <- t[2]
+		return line + " => " + h.observe("ok", want), true
+	}
+	return "", false
+}
+
+// finish releases everything and stops the scheduler (so that no goroutine keeps spinning).
+func (h *hcase) finish() {
+	if h.dead {
+		// cannot be recovered; open the gates so workers can leave and abandon the instance
+		h.r.mu.Lock()
+		h.r.draining = true
+		for _, er := range h.r.inflight {
+			select {
+			case er.gate <- "ok":
+			default:
+			}
+		}
+		h.r.mu.Unlock()
+		return
+	}
+	snap := h.s.VerifState()
+	for id := range snap.Index {
+		call(func() error { return h.s.Release(id) })
+	}
+	for _, it := range snap.Queue {
+		call(func() error { return h.s.Release(it.ID) })
+	}
+	h.r.mu.Lock()
+	h.r.draining = true
+	for _, er := range h.r.inflight {
+		select {
+		case er.gate <- "ok":
+		default:
+		}
+	}
+	h.r.mu.Unlock()
+	call(func() error { h.s.Stop(); return nil })
+}
+
+// execCase runs the op lines of one case on a fresh TreeScheduler.
+func execCase(ops []string) (out []string) {
+	var h *hcase
+	for _, raw := range ops {
+		line := raw
+		if i := strings.Index(line, " => "); i >= 0 {
+			line = line[:i]
+		}
+		t := strings.Fields(line)
+		if len(t) == 0 {
+			continue
+		}
+		if t[0] == "cfg" {
+			w, _ := strconv.Atoi(t[1])
+			if w < 1 {
+				w = 1
+			}
+			if h != nil {
+				h.finish()
+			}
+			hh, err := newCase(w)
+			if err != nil {
+				out = append(out, line+" => err")
+				continue
+			}
+			h = hh
+			out = append(out, fmt.Sprintf("cfg %d", w))
+			continue
+		}
+		if h == nil {
+			hh, _ := newCase(2)
+			h = hh
+			out = append(out, "cfg 2")
+		}
+		func() {
+			defer func() {
+				if r := recover(); r != nil {
+					out = append(out, line+" => panic")
+				}
+			}()
+			l, ok := h.doOp(t)
+			if ok {
+				out = append(out, l)
+			} else {
+				out = append(out, line+" => badline")
+			}
+		}()
+	}
+	if h != nil {
+		h.finish()
+	}
+	return out
+}
+
+func emit(out *kit.Out, id string, lines []string) {
+	out.Line("case", id)
+	for _, l := range lines {
+		out.Line(l)
+	}
+	out.Line("end")
+	out.Flush()
+}
+
+// Run: `vh-c17 -seed S -n N [-tier thorough]` generates; `vh-c17 -ops file` re-executes the cases of a file.
 func Run(args []string) int {
-	fmt.Fprintln(os.Stderr, "c17: harness not implemented yet")
-	return 3
+	f := kit.ParseFlags(args)
+	out := kit.NewOut()
+	defer out.Flush()
+	if f.Ops != "" {
+		lines, err := kit.ReadLines(f.Ops)
+		if err != nil {
+			fmt.Fprintln(os.Stderr, err)
+			return 2
+		}
+		var cur []string
+		id := ""
+		for _, l := range lines {
+			t := strings.Fields(l)
+			switch {
+			case len(t) == 2 && t[0] == "case":
+				id, cur = t[1], nil
+			case len(t) == 1 && t[0] == "end":
+				emit(out, id, execCase(cur))
+			default:
+				cur = append(cur, l)
+			}
+		}
+		return 0
+	}
+	r := kit.NewRand(f.Seed)
+	for i := 0; i < f.N; i++ {
+		emit(out, fmt.Sprintf("g%d", i), genCase(r.Fork(), i, f.Tier))
+	}
+	return 0
 }
